@@ -103,6 +103,7 @@ def run_impl(line):
         if op == 'poly.getslice':
             return g(lambda: fp(p[slice(unoi(a[1]), unoi(a[2]), unoi(a[3]))])) + ';' + fp(p)
         if op == 'poly.getlist': return g(lambda: fp(p[unil(a[1])])) + ';' + fp(p)
+        if op == 'poly.getpoly': return g(lambda: fp(p[mkpoly(a[1])])) + ';' + fp(p)
         if op == 'poly.setint':
             p[int(a[1])] = rval(a[2]); return fp(p)
         if op == 'poly.setslice':
@@ -243,12 +244,13 @@ def check_impl(line, res):
         if n < 0: return None if (r[0] == 'ERR' or not x) else bad('negative shift count accepted')
         e = [nk(k, v * 2 ** n) for v in x] if op == 'poly.shl' else [v // 2 ** n for v in x]
         return expect(k, e, r[0])
-    if op in ('poly.getint', 'poly.getslice', 'poly.getlist'):
+    if op in ('poly.getint', 'poly.getslice', 'poly.getlist', 'poly.getpoly'):
         r = res.split(';')
         if len(r) != 2 or r[1] != fl(k, x): return bad('the operand was changed')
         try:
             if op == 'poly.getint': e = [x[int(a[1])]]
             elif op == 'poly.getlist': e = [x[j] for j in unil(a[1])]
+            elif op == 'poly.getpoly': e = [x[j] for j in vec(a[1])[1]]
             else: e = [co(x, i) for i in ref_indices(len(x), unoi(a[1]), unoi(a[2]), unoi(a[3]))]
         except (IndexError, Refuse):
             return None if r[0] == 'ERR' else bad('must be refused, got %s' % r[0])
@@ -384,6 +386,7 @@ def index_lines(k, x, rng, tag, setfrac=1.0, span=None):
     if n <= 3: lists += [[i, j, l] for i in dom for j in dom for l in dom if rng.random() < 0.3]
     for idx in lists:
         yield 'poly.getlist %s %s' % (p, il(idx)), tag + 'getlist'
+        yield 'poly.getpoly %s %s' % (p, pt(rng.choice([0, 4, 8]), idx)), tag + 'getlist'
         if rng.random() < setfrac:
             for v in rng.sample(value_tokens(k, len(idx), rng), 3):
                 yield 'poly.setlist %s %s %s' % (p, il(idx), v), tag + 'setlist'
